@@ -99,6 +99,16 @@ def namespace():
         ns.update(igraph=igraph, hc=hc, os=os)
     except ImportError:
         pass
+    # the repository's own functions may be named in term-level clauses (pc(g[on]), pcDelta(...)): the real ones are meant
+    try:
+        import pyrepseq.stats as _st, pyrepseq.distance as _di, pyrepseq.entropy as _en
+        for _m in (_st, _di, _en):
+            for _k, _v in vars(_m).items():
+                if callable(_v) and not _k.startswith("_") and getattr(_v, "__module__", "").startswith("pyrepseq") and _k not in ns:
+                    ns[_k] = _v
+        ns.setdefault("stdpc_joint", _st.stdpc_joint)
+    except ImportError:
+        pass
     from replay import scopes
     ns.update(getattr(scopes, "SPEC_EXTRA", {}))
 
@@ -439,11 +449,14 @@ def cmd_falsify(req):
     want = req.get("clause")
     tried = 0
     fallback = None
+    herr = []
     for recipes in gen(rng):
         tried += 1
         if tried > budget:
             break
         rep = run_case(q, recipes)
+        if rep.get("harness_errors"):
+            herr.extend(rep["harness_errors"][:1])
         if not rep["in_domain"]:
             continue
         if rep["violations"]:
@@ -458,7 +471,7 @@ def cmd_falsify(req):
     if fallback is not None:
         fallback["note"] = f"input violates {fallback['report']['violations']} (no input violating exactly '{want}' found)"
         return fallback
-    return {"found": False, "tried": tried}
+    return {"found": False, "tried": tried, "harness_errors": (sorted(set(herr))[:5] + [f"{len(herr)} cases with evaluation errors"]) if herr else None}
 
 
 def replay_main(qualname, recipes, obligation):
